@@ -221,3 +221,202 @@ pub fn reference_generators(n: usize, cap: usize, x: usize) -> serde_json::Value
     let h: String = curve25519_dalek::constants::RISTRETTO_BASEPOINT_COMPRESSED.as_bytes().iter().map(|x| format!("{:02x}", x)).collect();
     serde_json::json!({"gi": gi, "hi": hi, "g": g, "h": h})
 }
+
+// ------------------------------------------------------------------------------------------------
+// an independent straight-from-the-paper PROVER (Chung et al. 2020, Fig. 3 with the zk-WIP argument of Fig. 1),
+// with the documented seed-nonce derivation, so that the library's verifier / mask recovery can be checked against it
+
+fn ref_nonce(seed: &Scalar, label: &str, j: Option<usize>, k: Option<usize>) -> Scalar {
+    use blake2::digest::FixedOutput;
+    let mut key = vec![0u8];
+    key.extend_from_slice(seed.as_bytes());
+    if let Some(j) = j {
+        key.push(b'j');
+        key.extend_from_slice(&(j as u32).to_le_bytes());
+    }
+    if let Some(k) = k {
+        key.push(b'k');
+        key.extend_from_slice(&(k as u32).to_le_bytes());
+    }
+    let mac = blake2::Blake2bMac512::new_with_salt_and_personal(&key, &[], label.as_bytes()).expect("blake2 parameters");
+    let out = mac.finalize_fixed();
+    let mut wide = [0u8; 64];
+    wide.copy_from_slice(out.as_slice());
+    Scalar::from_bytes_mod_order_wide(&wide)
+}
+
+/// returns the proof bytes in the released wire layout
+pub fn reference_prove<R: rand_core::RngCore + rand_core::CryptoRng>(
+    transcript: &Transcript,
+    st: &RangeStatement<RistrettoPoint>,
+    values: &[u64],
+    blindings: &[Vec<Scalar>],
+    rng: &mut R,
+) -> Option<Vec<u8>> {
+    let n = st.generators.bit_length();
+    let m = st.commitments.len();
+    let x = st.generators.extension_degree() as usize;
+    let nm = n * m;
+    let seed = st.seed_nonce;
+    fn draw<R2: rand_core::RngCore>(rng: &mut R2) -> Scalar {
+        loop {
+            let mut b = [0u8; 64];
+            rng.fill_bytes(&mut b);
+            let v = Scalar::from_bytes_mod_order_wide(&b);
+            if v != Scalar::ZERO {
+                break v;
+            }
+        }
+    }
+    let fresh = |rng: &mut R, label: &str, j: Option<usize>, k: usize| -> Scalar {
+        match seed {
+            Some(s) => ref_nonce(&s, label, j, Some(k)),
+            None => draw(rng),
+        }
+    };
+    let gs: Vec<RistrettoPoint> = st.generators.gi_base_iter().take(nm).cloned().collect();
+    let hs: Vec<RistrettoPoint> = st.generators.hi_base_iter().take(nm).cloned().collect();
+    let h = *st.generators.h_base();
+    let gb: Vec<RistrettoPoint> = st.generators.g_bases().to_vec();
+    // bits
+    let mut a_l = Vec::new();
+    let mut a_r = Vec::new();
+    for j in 0..m {
+        let o = values[j].checked_sub(st.minimum_value_promises[j].unwrap_or(0))?;
+        if n < 64 && (values[j] >> n) > 0 {
+            return None;
+        }
+        for i in 0..n {
+            let bit = (o >> i) & 1;
+            a_l.push(Scalar::from(bit));
+            a_r.push(Scalar::from(bit) - Scalar::ONE);
+        }
+    }
+    let mut alpha: Vec<Scalar> = (0..x).map(|k| fresh(rng, "alpha", None, k)).collect();
+    let mut a_pt = RistrettoPoint::identity();
+    for i in 0..nm {
+        a_pt += gs[i] * a_l[i] + hs[i] * a_r[i];
+    }
+    for k in 0..x {
+        a_pt += gb[k] * alpha[k];
+    }
+    // Fiat-Shamir
+    let mut t = transcript.clone();
+    t.append_message(b"dom-sep", b"Bulletproofs+ Range Proof");
+    t.append_message(b"H", h.compress().as_bytes());
+    for g in &gb {
+        t.append_message(b"G", g.compress().as_bytes());
+    }
+    t.append_u64(b"N", n as u64);
+    t.append_u64(b"T", x as u64);
+    t.append_u64(b"M", m as u64);
+    for c in &st.commitments {
+        t.append_message(b"Ci", c.compress().as_bytes());
+    }
+    for p in &st.minimum_value_promises {
+        t.append_u64(b"vi - minimum_value", p.unwrap_or(0));
+    }
+    t.append_message(b"A", a_pt.compress().as_bytes());
+    let y = challenge(&mut t, b"y")?;
+    let z = challenge(&mut t, b"z")?;
+    let z2 = z * z;
+    // shifted vectors
+    let mut a: Vec<Scalar> = a_l.iter().map(|v| v - z).collect();
+    let mut b: Vec<Scalar> = Vec::new();
+    for j in 0..m {
+        for i in 0..n {
+            let idx = j * n + i;
+            let d = pow(&z2, j + 1) * Scalar::from(1u128 << i);
+            b.push(a_r[idx] + d * pow(&y, nm - idx) + z);
+        }
+    }
+    let ynm1 = pow(&y, nm + 1);
+    for j in 0..m {
+        for k in 0..x {
+            alpha[k] += pow(&z2, j + 1) * blindings[j][k] * ynm1;
+        }
+    }
+    // weighted inner product argument
+    let mut g_cur = gs.clone();
+    let mut h_cur = hs.clone();
+    let mut ls = Vec::new();
+    let mut rs = Vec::new();
+    let mut len = nm;
+    let mut round = 0usize;
+    while len > 1 {
+        len /= 2;
+        let (a_lo, a_hi) = a.split_at(len);
+        let (b_lo, b_hi) = b.split_at(len);
+        let (g_lo, g_hi) = g_cur.split_at(len);
+        let (h_lo, h_hi) = h_cur.split_at(len);
+        let y_len = pow(&y, len);
+        let y_len_inv = y_len.invert();
+        let mut c_l = Scalar::ZERO;
+        let mut c_r = Scalar::ZERO;
+        for i in 0..len {
+            c_l += a_lo[i] * pow(&y, i + 1) * b_hi[i];
+            c_r += a_hi[i] * pow(&y, len + i + 1) * b_lo[i];
+        }
+        let d_l: Vec<Scalar> = (0..x).map(|k| fresh(rng, "dL", Some(round), k)).collect();
+        let d_r: Vec<Scalar> = (0..x).map(|k| fresh(rng, "dR", Some(round), k)).collect();
+        let mut l_pt = h * c_l;
+        let mut r_pt = h * c_r;
+        for i in 0..len {
+            l_pt += g_hi[i] * (a_lo[i] * y_len_inv) + h_lo[i] * b_hi[i];
+            r_pt += g_lo[i] * (a_hi[i] * y_len) + h_hi[i] * b_lo[i];
+        }
+        for k in 0..x {
+            l_pt += gb[k] * d_l[k];
+            r_pt += gb[k] * d_r[k];
+        }
+        t.append_message(b"L", l_pt.compress().as_bytes());
+        t.append_message(b"R", r_pt.compress().as_bytes());
+        let e = challenge(&mut t, b"e")?;
+        let ei = e.invert();
+        let g_new: Vec<RistrettoPoint> = (0..len).map(|i| g_lo[i] * ei + g_hi[i] * (e * y_len_inv)).collect();
+        let h_new: Vec<RistrettoPoint> = (0..len).map(|i| h_lo[i] * e + h_hi[i] * ei).collect();
+        let a_new: Vec<Scalar> = (0..len).map(|i| a_lo[i] * e + a_hi[i] * y_len * ei).collect();
+        let b_new: Vec<Scalar> = (0..len).map(|i| b_lo[i] * ei + b_hi[i] * e).collect();
+        for k in 0..x {
+            alpha[k] += d_l[k] * e * e + d_r[k] * ei * ei;
+        }
+        ls.push(l_pt);
+        rs.push(r_pt);
+        g_cur = g_new;
+        h_cur = h_new;
+        a = a_new;
+        b = b_new;
+        round += 1;
+    }
+    let r = draw(rng);
+    let s = draw(rng);
+    let d: Vec<Scalar> = (0..x).map(|k| fresh(rng, "d", None, k)).collect();
+    let eta: Vec<Scalar> = (0..x).map(|k| fresh(rng, "eta", None, k)).collect();
+    let mut a1 = g_cur[0] * r + h_cur[0] * s + h * (r * y * b[0] + s * y * a[0]);
+    let mut b_pt = h * (r * y * s);
+    for k in 0..x {
+        a1 += gb[k] * d[k];
+        b_pt += gb[k] * eta[k];
+    }
+    t.append_message(b"A1", a1.compress().as_bytes());
+    t.append_message(b"B", b_pt.compress().as_bytes());
+    let e = challenge(&mut t, b"e")?;
+    let r1 = r + a[0] * e;
+    let s1 = s + b[0] * e;
+    let d1: Vec<Scalar> = (0..x).map(|k| eta[k] + d[k] * e + alpha[k] * e * e).collect();
+    // wire layout: tag | d1 | A | A1 | B | r1 | s1 | (L, R)*
+    let mut out = vec![x as u8];
+    for v in &d1 {
+        out.extend_from_slice(v.as_bytes());
+    }
+    out.extend_from_slice(a_pt.compress().as_bytes());
+    out.extend_from_slice(a1.compress().as_bytes());
+    out.extend_from_slice(b_pt.compress().as_bytes());
+    out.extend_from_slice(r1.as_bytes());
+    out.extend_from_slice(s1.as_bytes());
+    for (l, r_) in ls.iter().zip(rs.iter()) {
+        out.extend_from_slice(l.compress().as_bytes());
+        out.extend_from_slice(r_.compress().as_bytes());
+    }
+    Some(out)
+}
